@@ -135,7 +135,8 @@ def run_case(case):
                 op = ift.create_power_operator(dom, pf, space=idx if len(dom) > 1 or case.get("give_space") else None)
                 obs["out"] = arr_out(op(field_of(dom, case)))
             else:
-                pd = ift.PowerDistributor(dom, ps, idx if len(dom) > 1 or case.get("give_space") else None)
+                pd = ift.PowerDistributor(dom, None if case.get("default_ps") else ps,
+                                          idx if len(dom) > 1 or case.get("give_space") else None)
                 obs["opdom"] = dom_desc(pd.domain)
                 if kind == "times":
                     obs["out"] = arr_out(pd(field_of(pd.domain, case)))
@@ -472,6 +473,8 @@ def gen_case(rng, kind):
         specs, (idx,) = gen_dom(rng, 1, False)
         bb = gen_binbounds(rng, specs[idx])
         case = {"kind": kind, "dom": specs, "idx": idx, "binbounds": bb, "give_space": bool(rng.integers(0, 2))}
+        if kind != "powop":     # PowerDistributor(power_space=None) builds the natural PowerSpace itself
+            case["default_ps"] = bool(bb is None and rng.integers(0, 2))
         sizes = [mk_space(s).size for s in specs]
         nb = power_space_for(case, mk_space(specs[idx])).size
         szp = list(sizes)
